@@ -76,4 +76,73 @@ def t15second : List FieldSpec := [⟨.idx (.idx .messages_type 1) 0, 90, 6, .na
 def t15station2 : List FieldSpec := [⟨.idx .stations_mmsi 1, 110, 30, .nat⟩, ⟨.idx (.idx .messages_type 0) 1, 140, 6, .nat⟩]
 end Layout
 
+/-! ### Scaled fields (C10) and optional fields (C11) -/
+
+/-- A numeric field reported as a floating-point quantity: where it is, whether it is a
+    two's-complement value, its 'not available' code (if any) and its scale. -/
+structure ScaledSpec where
+  key : Key
+  off : Nat
+  w : Nat
+  signed : Bool
+  sentinel : Option Int
+  op : FOp
+  deriving Repr
+
+def ScaledSpec.raw (e : ScaledSpec) (bs : List UInt8) : Int :=
+  if e.signed then toSigned e.w (field bs e.off e.w) else (field bs e.off e.w : Int)
+
+/-- Absent exactly at the sentinel; otherwise the raw value with the field's scale. -/
+def ScaledSpec.render (e : ScaledSpec) (bs : List UInt8) : Val :=
+  match e.sentinel with
+  | some s => if e.raw bs = s then .none else .f32 (e.raw bs) e.op
+  | none => .f32 (e.raw bs) e.op
+
+/-- The exact value an `FOp` stands for, as a fraction `num / den` applied to the raw integer. -/
+def FOp.num : FOp → Nat | .div600000mul1000 => 1000 | _ => 1
+def FOp.den : FOp → Nat | .div10 => 10 | .div600000 => 600000 | .div600 => 600 | .ident => 1 | .div600000mul1000 => 600000
+
+def lon28 (off : Nat) : ScaledSpec := ⟨.longitude, off, 28, true, some 108600000, .div600000⟩
+def lat27 (off : Nat) : ScaledSpec := ⟨.latitude, off, 27, true, some 54600000, .div600000⟩
+def sog10 (off : Nat) : ScaledSpec := ⟨.speed_over_ground, off, 10, false, some 1023, .div10⟩
+def cog12 (off : Nat) : ScaledSpec := ⟨.course_over_ground, off, 12, false, some 3600, .div10⟩
+
+namespace Scaled
+def t01 : List ScaledSpec := [sog10 50, lon28 61, lat27 89, cog12 116]
+def t04 : List ScaledSpec := [lon28 79, lat27 107]
+def t05 : List ScaledSpec := [⟨.draught, 294, 8, false, none, .div10⟩]
+/-- SAR aircraft: speed in knots, undivided. -/
+def t09 : List ScaledSpec := [⟨.speed_over_ground, 50, 10, false, some 1023, .ident⟩, lon28 61, lat27 89, cog12 116]
+/-- DGNSS: 18/17-bit coordinates in 1/10 minute. -/
+def t17 : List ScaledSpec :=
+  [⟨.longitude, 40, 18, true, some 108600, .div600⟩, ⟨.latitude, 58, 17, true, some 54600, .div600⟩]
+def t18 : List ScaledSpec := [sog10 46, lon28 57, lat27 85, cog12 112]
+def t21 : List ScaledSpec := [lon28 164, lat27 192]
+/-- Long-range broadcast: 1/10-minute coordinates (the code scales by `/600000*1000 = /600`), speed
+    and course undivided with their own sentinels. -/
+def t27 : List ScaledSpec :=
+  [⟨.longitude, 44, 18, true, some 108600, .div600000mul1000⟩, ⟨.latitude, 62, 17, true, some 54600, .div600000mul1000⟩,
+   ⟨.speed_over_ground, 79, 6, false, some 63, .ident⟩, ⟨.course_over_ground, 85, 9, false, some 511, .ident⟩]
+end Scaled
+
+/-- An unsigned integer field with a 'not available' code. -/
+structure OptSpec where
+  key : Key
+  off : Nat
+  w : Nat
+  sentinel : Nat
+  deriving Repr
+
+def OptSpec.render (e : OptSpec) (bs : List UInt8) : Val :=
+  if field bs e.off e.w = e.sentinel then .none else .nat (field bs e.off e.w)
+
+namespace Opt
+def t01 : List OptSpec := [⟨.true_heading, 128, 9, 511⟩]
+def t04 : List OptSpec :=
+  [⟨.year, 38, 14, 0⟩, ⟨.month, 52, 4, 0⟩, ⟨.day, 56, 5, 0⟩, ⟨.minute, 66, 6, 60⟩, ⟨.second, 72, 6, 60⟩]
+def t05 : List OptSpec := [⟨.eta_month_utc, 274, 4, 0⟩, ⟨.eta_day_utc, 278, 5, 0⟩, ⟨.eta_minute_utc, 288, 6, 60⟩]
+def t09 : List OptSpec := [⟨.altitude, 38, 12, 4095⟩]
+def t18 : List OptSpec := [⟨.true_heading, 124, 9, 511⟩]
+end Opt
+
 end AisVerif.Spec
